@@ -39,7 +39,8 @@ def blocks(seed):
     big = 4090 - (len(realistic) - 2) - 6
     full = tlv.encode(RC.http_settings(extra=[(32, 3, bytes((b % 255) + 1 for b in lcg(big, seed + 5)))]))
     assert len(full) == 4092, len(full)
-    return {"minimal": minimal, "two": two, "realistic": realistic, "full": full}
+    ua128 = tlv.encode([(1, 1, b"\x00\x00"), (2, 1, b"\x00\x50"), (9, 3, bytes(0x41 + i % 26 for i in range(128))), (10, 3, b"/submit.php".ljust(64, b"\x00")), (26, 3, b"GET".ljust(16, b"\x00")), (37, 2, b"\x00\x00\x00\x07")])
+    return {"minimal": minimal, "two": two, "realistic": realistic, "full": full, "ua128": ua128}
 
 
 def filler(kind, n, key, seed):
@@ -293,7 +294,10 @@ def chunk_containers(chunk, acc):
                     if bad:
                         acc.fail(bad[0] + "/pe", {"kind": "Acont", "container": "pe", "arch": arch, "block": bname, "key": key, "prepend": prepend, "keys": keys, "all_keys": ak, "seed": acc.seed}, bad[1], bad[2])
                 for sname, stub in stubs.items():
-                    for nonce in nonces if sname == "call" else nonces[1:2]:
+                    # nonces that contain ff ff ff (an in-band occurrence of the end-of-stub marker) for the stubs that
+                    # are located through the size field only; prepend 0 so the decoded content starts with the image
+                    extra = ((b"\xff\xff\xff\x41", b"\x00\xff\xff\xff", b"\xff\xff\xff\xff") if sname.endswith("size-only") and prepend == 0 else ())
+                    for nonce in (nonces if sname == "call" else nonces[1:2]) + extra:
                         payload, views = container("xor", arch, blk, prepend, stub, nonce)
                         acc.states += 1
                         for keys, ak in ((None, False), ([key], False), (None, True)):
@@ -386,7 +390,7 @@ def chunk_constructors(chunk, acc):
     B = blocks(acc.seed)
     cases = []
     n = 0
-    for bname in ("minimal", "two", "realistic", "full"):
+    for bname in ("minimal", "two", "realistic", "full", "ua128"):
         for key in (0x69, 0x2E, 0x00, 0xAF, 0xCC):
             blk = RC.obfuscate(B[bname].ljust(4096, b"\x00") if bname != "minimal" else B[bname], key)
             for cont in ("raw0", "raw", "rawcut", "pe-x86", "pe-x64", "xor-x86", "xor-x64", "none"):
